@@ -27,7 +27,7 @@ func init() {
 			"(9) an accepted Put/Delete of a leaf sets the 'written' flag its Commit consults; (10) an in-memory transaction works on a private copy of the parent tree taken under the parent's lock and the tree pointer has three tabled writers; " +
 			"(4+) the in-memory transaction's own List records its observation; (2+) a kept list verification entry of the raft transaction is replaced (and the old one dropped) only when the new replay window is wider; " +
 			"(7+) node-local trim bounds and the bound applyLog ships are min(lowest active start, state machine index), a writable raft transaction is registered with the tracker before it is handed out, registration increments / completion decrements the per-index count and the index is forgotten only with its last transaction, trimming removes exactly the entries below the bound, and the committing transaction's own start index is left out of the shipped bound only if no sibling is open at it (rule shared with C09.3); " +
-			"(5+) the LRU and lock table of a cache are set by its constructor alone; every removal from / insertion into the LRU of a physical cache executes while LockForKey(<the same cache>.locks, <the same key>) is held (write lock for a removal, write or read lock for an insertion; no lock is a violation, not a vacuous pass), and a purge only behind a loop locking every entry of the lock table (rule shared with C13.5); (2++) the raft transaction's per-prefix map of kept list verifications is (re)assigned only on a lookup miss for the prefix, a fresh per-page map only on a miss for the prefix or the page, and the record is written by ListPage alone (shared with C13.2); (7++) the log entry is serialised / handed to raft only after applyLog itself stored the capped bound into it, whatever the caller pre-computed (shared with C09.3).",
+			"(5+) the LRU and lock table of a cache are set by its constructor alone; every removal from / insertion into the LRU of a physical cache executes while LockForKey(<the same cache>.locks, <the same key>) is held (write lock for a removal, write or read lock for an insertion; no lock is a violation, not a vacuous pass), and a purge only behind a loop locking every entry of the lock table (rule shared with C13.5); (2++) the raft transaction's per-prefix map of kept list verifications is (re)assigned only on a lookup miss for the prefix, a fresh per-page map only on a miss for the prefix or the page, and the record is written by ListPage alone (shared with C13.2); (7+++) registration and release with the tracker agree: every trackTransaction and every completeTransaction site lies behind the writable flag of the same transaction (the field, or the constructor parameter it is stored from) being true, no path releases twice, and every Commit/Rollback of a live writable transaction releases (directly or through the deferred literal it arms); (7++) the log entry is serialised / handed to raft only after applyLog itself stored the capped bound into it, whatever the caller pre-computed (shared with C09.3).",
 		NotDecided: "serializability over interleavings (schedules); soundness of the raft fast path as index arithmetic beyond the stated predicates; what PostgreSQL implements under the isolation level requested (delegated to the database; only the level requested is checked); the gRPC storage client/server pair (out-of-process).",
 		Run:        runC08,
 	})
